@@ -51,3 +51,11 @@ Proof.
     [exact (role_filename_url_plain cs v name Hn) | exact (role_file_opened base cs v name Hne Hb Hn)].
 Qed.
 Print Assumptions C16_file_url_opens_entry.
+
+(* ... and for two different role names these are two different files: through a local transport, too, one role's
+   metadata is never served as another's. *)
+Theorem C16_distinct_roles_open_distinct_files : forall base cs v1 v2 n1 n2,
+  base <> [] -> forallb (fun c => negb (is_empty c)) base = true -> is_bytes n1 -> is_bytes n2 -> n1 <> n2 ->
+  url_join base (role_filename cs v1 n1) <> url_join base (role_filename cs v2 n2).
+Proof. exact role_files_apart. Qed.
+Print Assumptions C16_distinct_roles_open_distinct_files.
